@@ -39,8 +39,16 @@ TzifWhy(r) ==
   ELSE IF r.st # r.st_static THEN "jiff and its jiff-static copy disagree on accepting the TZif data"
   ELSE ""
 
+\* a database over a (mutated) concatenated tzdata file answers or refuses, and every zone it hands out answers queries
+ConcatWhy(r) ==
+  IF r.st = "panic" THEN "the concatenated database panicked on a mutated file"
+  ELSE IF r.st = "ok" /\ r.probes_ok # 1 THEN "a zone from a mutated concatenated file panicked on a query"
+  ELSE IF r.cls = "concat-valid" /\ ~(r.st = "ok" /\ r.found >= 6) THEN "the valid concatenated file was not served"
+  ELSE ""
+
 Why(r) ==
   CASE r.op = "parse" -> ParseWhy(r)
+    [] r.op = "concat" -> ConcatWhy(r)
     [] r.op = "tzif"  -> TzifWhy(r)
     [] OTHER          -> "unknown op"
 
